@@ -46,6 +46,12 @@ class ThreadRunner(BaseRunner):
 
     def _set_failure(self, failure: BaseException):
         if not self._payload_failure.done():
+            if isinstance(failure, StopIteration):
+                # StopIteration cannot be raised into a Future or out of a coroutine;
+                # report it the way Python does for coroutine payloads (PEP 479)
+                wrapped = RuntimeError("payload raised StopIteration")
+                wrapped.__cause__ = failure
+                failure = wrapped
             self._payload_failure.set_exception(failure)
 
     async def manage_payloads(self):
